@@ -3,7 +3,7 @@
 import json, os
 HERE = os.path.dirname(os.path.dirname(os.path.abspath(__file__)))
 B = []
-def cfg(nidl=False, base=True, sw=False, regw=False, unix=False, life=0, nide=False, lstate=False, so=False, twoh=False, lskew=False): return dict(nidl=nidl, nide=nide, lstate=lstate, lskew=lskew, so=so, twoh=twoh, base=base, sw=sw, regw=regw, unix=unix, lifeSec=life, certKeys=["k1", "k2", "k3"])
+def cfg(nidl=False, base=True, sw=False, regw=False, unix=False, life=0, nide=False, lstate=False, so=False, twoh=False, lskew=False, llog=False): return dict(nidl=nidl, nide=nide, lstate=lstate, lskew=lskew, llog=llog, so=so, twoh=twoh, base=base, sw=sw, regw=regw, unix=unix, lifeSec=life, certKeys=["k1", "k2", "k3"])
 def NN(k): return dict(op="NewNode", k=k)
 def AP(k): return dict(op="AuthorizePending", k=k)
 def RG(k, kind, ex="none"): return dict(op="Rogue", k=k, kind=kind, ex=ex)
@@ -53,12 +53,15 @@ beh("f16_meta", ["C16"], cfg(), [E("k1"), D("k1", "none", "none"), D("k1", "one"
                                  C("k1", stt="ok"), C("k1", stt="none", pref="none")])
 beh("f16_names_and_overrides", ["C16"], cfg(), [E("k1"), D("k1", "none", "odd"), D("k1", "one", "odd"), D("k1", "containsPref", "none"), D("k1", "containsPref", "nested"), D("k1", "none", "overriddenNil"), D("k1", "many", "overriddenNil"), D("k1", "one", "nested")])
 beh("f16_orders", ["C16", "C02"], cfg(), [E("k1")] + [dict(C("k1", stt=st, pref=pf), xp=xp) for xp in ("mid", "afterPref", "before", "split") for st in ("none", "ok") for pf in ("cur", "none")] + [D("k1", "many", "nested")])
+beh("f16_listener_debug_logger", ["C16"], cfg(llog=True), [E("k1"), D("k1", "none", "none"), D("k1", "one", "empty"), D("k1", "many", "nested"), C("k1", stt="ok"), D("k1", "many", "large")])
 beh("f16_listener_state", ["C16"], cfg(lstate=True), [E("k1"), D("k1", "none", "none"), D("k1", "one", "empty"), D("k1", "many", "nested"), C("k1", stt="none"), C("k1", stt="ok"), C("k1", stt="unsigned"),
                                                     NN("k2"), D("k2"), AP("k2"), D("k2", "none", "none"), D("k2", "one", "large")])
 beh("f14_classes_auth", ["C14"], cfg(), [E("k1")] + [M(c, "auth") for c in ["empty", "short1", "short2", "nob64", "b64rand", "b64trunc", "oversize", "mixed", "dup", "badindex", "hugeEntry", "prefOnly",
                                                                               "nontls", "dropAfterHello", "dropMidHello", "silentClose"]] + [D("k1")])
 beh("f14_classes_fetch", ["C14"], cfg(sw=True), [E("k1")] + [M(c, "fetch") for c in ["empty", "short1", "short2", "nob64", "b64rand", "b64trunc", "oversize", "mixed", "dup", "badindex", "hugeEntry",
                                                                                        "dropAfterHello", "dropMidHello"]] + [D("k1"), M("empty", "pref"), M("short1", "pref"), M("b64rand", "pref"), D("k1")])
+beh("f14_relay_and_state_garbage", ["C14"], cfg(), [E("k1"), M("rewrapNoKeyInfo", "fetch"), D("k1"), M("authStateGarbage", "auth"), NN("k2"), AP("k2"), D("k2"), M("authStateGarbage", "auth"), NN("k3"), D("k3"), AP("k3"),
+                                                     M("authStateGarbage", "auth"), D("k3"), M("rewrapNoKeyInfo", "fetch"), D("k1"), D("k2")])
 # peers that keep a handshake open for 6.5 s while an honest node dials (open known finding KF-C14-2: Accept handshakes inline)
 beh("kf_c14_stall", ["C14"], cfg(), [E("k1"), D("k1"), M("stallSilent"), D("k1"), M("stallPartial"), D("k1"), M("stallAfterHello", "fetch"), D("k1"), M("stallAfterHello", "auth"), D("k1")])
 # adversarial library clients are remote input as well
